@@ -99,6 +99,11 @@ impl Region {
         if self.skew.get() && (a / align) % 2 == 0 {
             a += align;
         }
+        if size > REGION_CAP {
+            // a request no machine can serve (close to isize::MAX): refused like a real allocator would, the run goes on
+            self.log.borrow_mut().push(BaseEv::AllocFail { size, align, scripted: false });
+            return Err(AllocError);
+        }
         let granted = size + self.extra.get();
         if a + granted + GAP + 64 > REGION_CAP {
             self.exhausted.set(true);
